@@ -208,10 +208,21 @@ def check_c03(tier):
             raise C.ToolError("TLC on Extract/%s failed: %s" % (g, m["errors"]))
         metas.append(m)
         cases += [(g, c) for c in C.tlc_cases(m)]
+    # the same fixture functions under a name that starts with `test_` (a fixture is a fixture, whatever it is called: its
+    # parameters are requests of ONE function, recorded once): every parameter-kind sequence and every decorator form
+    for g, c in list(cases):
+        if g in ("params", "deco") and (g == "params" or (c["fn"]["extra"] == "none" and c["fn"]["place"] == "module")):
+            c2 = json.loads(json.dumps(c))
+            c2["fn"]["tname"] = True
+            if c2["expect"]["name"] == "fx_sample":
+                c2["expect"]["name"] = "test_sample"
+            cases.append((g, c2))
     hcases = []
     texts = []
     for n, (g, c) in enumerate(cases):
         t = render_fn(c["fn"])
+        if c["fn"].get("tname"):
+            t = t.replace("fx_sample", "test_sample")
         texts.append(t)
         hcases.append({"id": n, "ops": [{"op": "analyze", "path": "/vws/x/conftest.py", "text": t}, {"op": "snapshot", "full": True}]})
     # the repository's own Python corpus and its unit-test snippets' directory
